@@ -52,6 +52,96 @@ def library():
     return _lib_cache
 
 
+_raw_cache = {}
+_gen_cache = {}
+BASE_LIB = 'gnpy/example-data/eqpt_config.json'
+
+
+def raw_entries(rel, extra=None):
+    """{type_variety: raw JSON entry} of the amplifier definitions of a library file (+ generated entries), unloaded"""
+    from pathlib import Path
+    if rel not in _raw_cache:
+        data = json.load(open(Path(common.REPO) / rel))
+        d = {}
+        for e in data.get('Edfa', []):
+            for name in [e['type_variety']] + list(e.get('other_name', [])):
+                d[name] = e
+        _raw_cache[rel] = d
+    d = dict(_raw_cache[rel])
+    for e in extra or []:
+        d[e['type_variety']] = e
+    return d
+
+
+def declared(raw, variety):
+    """what the definitions say, independently of the loader: maximum output power, gain range.  For a dual stage the
+    output stage (booster) delivers the power, the flat gains add up (docs/amplifier_models_description.rst)"""
+    e = raw[variety]
+    if e.get('type_def') == 'dual_stage':
+        pre, boo = raw[e['preamp_variety']], raw[e['booster_variety']]
+        return {'p_max': boo['p_max'], 'gain_flatmax': pre['gain_flatmax'] + boo['gain_flatmax'], 'gain_min': e['gain_min']}
+    if e.get('type_def') == 'multi_band':
+        return None
+    return {'p_max': e['p_max'], 'gain_flatmax': e['gain_flatmax'], 'gain_min': e['gain_min']}
+
+
+def gen_library(rng):
+    """extra amplifier definitions: single stages with DIFFERENT p_max / gain ranges / NF and dual stages built on them"""
+    from gnpy.tools.json_io import Amp
+    stages = []
+    pmaxes = rng.sample([16.0, 18.0, 20.0, 21.0, 23.0, 25.0, 27.0], 4)
+    k = 0
+    while len(stages) < 4:
+        ds = gen_datasheet(rng)
+        if rng.random() < 0.3:
+            e = {'type_variety': f'gen_stage{k}', 'type_def': 'fixed_gain', 'gain_flatmax': ds['gain_flatmax'],
+                 'gain_min': ds['gain_flatmax'] - rng.choice([0, 1, 2]), 'p_max': pmaxes[len(stages)], 'nf0': rng.uniform(4.5, 7),
+                 'allowed_for_design': False}
+        else:
+            e = {'type_variety': f'gen_stage{k}', 'type_def': 'variable_gain', 'gain_flatmax': ds['gain_flatmax'],
+                 'gain_min': ds['gain_min'], 'p_max': pmaxes[len(stages)], 'nf_min': ds['nf_min'], 'nf_max': ds['nf_max'],
+                 'out_voa_auto': False, 'allowed_for_design': True}
+        k += 1
+        try:
+            Amp.from_json({}, **dict(e))
+        except Exception:  # noqa  (datasheet rejected by estimate_nf_model: draw another one)
+            continue
+        stages.append(e)
+    duals = []
+    for i in range(3):
+        pre, boo = rng.sample(stages, 2)
+        duals.append({'type_variety': f'gen_dual{i}', 'type_def': 'dual_stage',
+                      'gain_min': pre['gain_min'] + rng.choice([0, rng.uniform(0, boo['gain_flatmax'])]),
+                      'preamp_variety': pre['type_variety'], 'booster_variety': boo['type_variety'], 'allowed_for_design': True})
+    return stages + duals
+
+
+def load_generated(extra):
+    """the shipped example library + generated definitions, through the real loader (_equipment_from_json)"""
+    from pathlib import Path
+    from gnpy.tools.json_io import _equipment_from_json
+    from gnpy.tools.default_edfa_config import DEFAULT_EXTRA_CONFIG
+    key = json.dumps(extra, sort_keys=True)
+    if key not in _gen_cache:
+        data = json.load(open(Path(common.REPO) / BASE_LIB))
+        data['Edfa'] = data['Edfa'] + copy.deepcopy(extra)
+        _gen_cache[key] = _equipment_from_json(data, DEFAULT_EXTRA_CONFIG)['Edfa']
+    return _gen_cache[key]
+
+
+def declared_of(case):
+    """declared values of every band amplifier of a case, in the order of case['op']"""
+    a = case['amp']
+    if 'custom' in a:
+        ds = a['custom']
+        return [{'p_max': ds['p_max'], 'gain_flatmax': ds['gain_flatmax'], 'gain_min': ds['gain_min']}]
+    raw = raw_entries(BASE_LIB, a['genlib']) if 'genlib' in a else raw_entries(a['lib'])
+    e = raw[a['variety']]
+    if e.get('type_def') == 'multi_band':
+        return [declared(raw, v) for v in e['amplifiers']]
+    return [declared(raw, a['variety'])]
+
+
 def custom_amp(spec):
     """variable-gain amplifier from a random datasheet, through the real Amp.from_json"""
     from gnpy.tools.json_io import Amp
@@ -151,7 +241,15 @@ def gen_case(rng, keys, one=False):
     lib = library()
     r = rng.random()
     case = {}
-    if r < 0.7:
+    if r < 0.12:
+        extra = gen_library(rng)
+        name = rng.choice([e['type_variety'] for e in extra if e['type_def'] == 'dual_stage'] * 3 + [e['type_variety'] for e in extra])
+        case['amp'] = {'genlib': extra, 'variety': name}
+        try:
+            amp = get_amp(case)[0]
+        except Exception:  # noqa
+            return None
+    elif r < 0.7:
         key = rng.choice(keys)
         amp = lib[key][0]
         case['amp'] = {'lib': key[0], 'variety': key[1]}
@@ -194,6 +292,9 @@ def get_amp(case):
     lib = library()
     if 'custom' in case['amp']:
         return custom_amp(case['amp']['custom']), None
+    if 'genlib' in case['amp']:
+        alldict = load_generated(case['amp']['genlib'])
+        return alldict[case['amp']['variety']], alldict
     a, alldict = lib[(case['amp']['lib'], case['amp']['variety'])]
     if case['amp'].get('dgt_override'):
         a = copy.deepcopy(a)
@@ -263,7 +364,8 @@ def propagate_once(el, edfas, chans):
                           'ase': [float(x) for x in out.ase], 'nli': [float(x) for x in out.nli]}
             for e, added in zip(used, added_log):
                 o = observe_edfa(e, added)
-                o['gain_target'] = rec['gain_before'][[id(x) for x in edfas].index(id(e))]
+                o['_idx'] = [id(x) for x in edfas].index(id(e))
+                o['gain_target'] = rec['gain_before'][o['_idx']]
                 rec['amps'].append(o)
         except Exception as ex:  # noqa
             rec['out'] = f'E:{type(ex).__name__}'
@@ -372,6 +474,11 @@ def db(x):
 def oracle(case, rec):
     fails = []
     chans = case['chan']
+    try:
+        declared_all = declared_of(case)
+    except Exception as ex:  # noqa
+        declared_all = None
+        fails.append(('declared_limits', f'definitions of the amplifier cannot be read: {type(ex).__name__}: {ex}'))
     if isinstance(rec['out'], str):
         # the only legitimate refusal: no channel at all inside the amplifier band(s)
         bands = [(e.params.f_min, e.params.f_max) for e in rec['edfas']]
@@ -398,10 +505,17 @@ def oracle(case, rec):
         a = 1.0 if o['in_voa'] is None else 10 ** (-o['in_voa'] / 10)
         pin = [c[3] * a for c in sel]
         pin_db = db(sum(pin) * 1e3)
+        # the limits the amplifier works with are those of its definition (dual stage: p_max of the output stage, flat
+        # gains added), taken from the raw library entries, not read back from the loaded object
+        dec = declared_all[o['_idx']] if declared_all and o.get('_idx') is not None and o['_idx'] < len(declared_all) else None
+        p_max = dec['p_max'] if dec else o['p_max']
+        if dec and (abs(o['p_max'] - dec['p_max']) > 1e-9 or abs(o['_params'].gain_flatmax - dec['gain_flatmax']) > 1e-9):
+            fails.append(('declared_limits', f"{o['_params'].type_def} {o['_params'].type_variety}: loaded p_max {o['p_max']} / gain_flatmax "
+                          f"{o['_params'].gain_flatmax}, definitions give p_max {dec['p_max']} / gain_flatmax {dec['gain_flatmax']}"))
         # effective gain: set gain, reduced only as far as needed, judged on the TOTAL input power
-        exp_eff = min(o['gain_target'], o['p_max'] - pin_db)
+        exp_eff = min(o['gain_target'], p_max - pin_db)
         if abs(o['eff'] - exp_eff) > 1e-9:
-            fails.append(('clamp', f"effective gain {o['eff']} != min(set {o['gain_target']}, p_max - pin {o['p_max'] - pin_db})"))
+            fails.append(('clamp', f"effective gain {o['eff']} != min(set {o['gain_target']}, p_max - pin {p_max - pin_db})"))
         g = o['gprofile']
         if len(g) != len(sel):
             fails.append(('profile_length', f'{len(g)} gains for {len(sel)} channels'))
@@ -412,8 +526,8 @@ def oracle(case, rec):
         if abs(gtot - o['eff']) > (1e-9 if flat else 0.3):
             fails.append(('total_gain', f"total gain {gtot} vs effective gain {o['eff']} (flat={flat})"))
         # never above p_max (the signal part; the freshly generated ASE is accounted separately below)
-        if pin_db + gtot > o['p_max'] + (1e-9 if flat else 0.3):
-            fails.append(('above_pmax', f"total output {pin_db + gtot} dBm > p_max {o['p_max']}"))
+        if pin_db + gtot > p_max + (1e-9 if flat else 0.3):
+            fails.append(('above_pmax', f"total output {pin_db + gtot} dBm > p_max {p_max}"))
         # NF follows the configured model (reference formulas of the documentation), plus the NF ripple
         slot_width = sel[1][0] - sel[0][0] if len(sel) > 1 else sel[0][1]
         try:
@@ -682,7 +796,7 @@ def run(ctx):
         ctx.case(strip(c), numeric and ninb >= 2)
         amp, _ = get_amp(c)
         ctx.count('type_' + amp.type_def)
-        ctx.count('amp_custom' if 'custom' in c['amp'] else 'amp_library')
+        ctx.count('amp_custom' if 'custom' in c['amp'] else 'amp_generated_library' if 'genlib' in c['amp'] else 'amp_library')
         for rg in c['regime']:
             ctx.count('regime_' + rg)
         ctx.count('outcome_numeric' if numeric else 'outcome_' + rec['out'])
